@@ -18,6 +18,8 @@ def run(ck):
     alloc.r9_failure_is_atomic(ck, P)      # C15-R9: a failed setter must not leave the filter kind ahead of its parameter block (the block is then read with the wrong layout)
     filt.r1_layout(ck, P)                # C18-R1: the generator writes each table within the part of the block that was sized for it
     filt.r12_param_block_validated(ck, P, 'C04-R12')   # the fetchers read the kernel out of the library's own copy of the block
+    filt.r14_header_fields_bounded(ck, P, 'C04-R17')
     geometry.r13_empty_image_never_repeated(ck, P)
     geometry.r14_hull_needs_constant_sign_of_w(ck, P)
     geometry.r15_empty_image_not_addressed_directly(ck, P)
+    geometry.r16_translation_offset_in_wide_type(ck, P)
